@@ -32,6 +32,11 @@ Reading guide (property text → theorem)
   far); the lazy `pthread_key_create` failing → `tls_fail_changes_nothing` (set / replace / get), `current_fail_releases_once`
   (`p_uthread_current`: NULL, the fresh block released once).  `free_only_by_unref` names these two frees as the only ones that are
   not an unref.
+* the library thread whose own TLS store does not take (`pp_uthread_proxy`, `is_stored == FALSE`; events `startUnstored`, `retUnstored`;
+  invariant `PInv`) → `start_unstored_keeps_reference`, `proxy_unstored_releases_once`, `unstored_thread_end_leaves_handle`; observations
+  about the code as it is, under faults outside the property's quantifier: `exit_code_lost_when_slot_unstored`,
+  `join_of_unstored_yields_zero` (`p_uthread_exit` in such a thread returns; the join yields 0) and — `pthread_setspecific` reporting an
+  error (`storeFail`) — `replace_setspecific_failure_destroys_twice`, `set_setspecific_failure_is_noop`.
 * the independent executable reference `PV/Spec/UThread.lean` (the spec column of the differential run) answers
   exactly as the machine does → `spec_refinement_step`, `spec_refinement`, `spec_refinement_disciplined`.
 * references attributed to the threads that hold them (`PV.Model.UThreadOwners`) → `user_refs_are_held`,
@@ -292,7 +297,9 @@ theorem unstored_thread_end_leaves_handle {s s' : State} {t h : Nat} (hr : Reach
 
 /-! ## join and exit code -/
 
-/-- `p_uthread_join` on a joinable handle is possible only once its thread has ended, and yields the
+/-- (a thread started by `startUnstored` has no record pointing to its handle: it is *proxied* for it; its `exitArg` is `none`
+    and the code is 0, `join_of_unstored_yields_zero`)
+    `p_uthread_join` on a joinable handle is possible only once its thread has ended, and yields the
     argument of the `p_uthread_exit` call that ended it, 0 if the function simply returned; on a
     handle that is not joinable (detached, or a thread the library did not create) it yields −1 -/
 theorem join_code {s s' : State} {a h : Nat} (hr : Reach s) (hs : step s (.join a h) = .ok s') :
